@@ -58,6 +58,8 @@ pub fn parse<'a, T: Iterator<Item = &'a Token>>(
     text: &str,
     cur: &mut Peekable<T>,
 ) -> Result<Cell, Error> {
+    #[cfg(marwood_verif)]
+    let _verif_depth = crate::vm::verif::depth::enter("parse", "parse");
     let token = match cur.next() {
         Some(token) => token,
         None => return Err(Error::Incomplete),
@@ -103,6 +105,8 @@ fn parse_list<'a, T: Iterator<Item = &'a Token>>(
     cur: &mut Peekable<T>,
     start_token: &Token,
 ) -> Result<Cell, Error> {
+    #[cfg(marwood_verif)]
+    let _verif_depth = crate::vm::verif::depth::enter("parse", "parse_list");
     let mut list = vec![];
     loop {
         match cur.peek().ok_or(Error::Incomplete)?.token_type {
@@ -145,6 +149,8 @@ fn parse_improper_list_tail<'a, T: Iterator<Item = &'a Token>>(
     text: &str,
     cur: &mut Peekable<T>,
 ) -> Result<Cell, Error> {
+    #[cfg(marwood_verif)]
+    let _verif_depth = crate::vm::verif::depth::enter("parse", "parse_improper_list_tail");
     // At least one value must be read before the dot
     if list.is_empty() {
         return Err(Error::ExpectedTokenBeforeDot);
@@ -181,6 +187,8 @@ fn parse_vector<'a, T: Iterator<Item = &'a Token>>(
     text: &str,
     cur: &mut Peekable<T>,
 ) -> Result<Cell, Error> {
+    #[cfg(marwood_verif)]
+    let _verif_depth = crate::vm::verif::depth::enter("parse", "parse_vector");
     let mut vector = vec![];
     loop {
         match cur.peek().ok_or(Error::Incomplete)?.token_type {
